@@ -449,6 +449,12 @@ class Engine:
         # override emit settings in store
         if store_schema:
             self.state._apply_config(store_schema)
+            # The schema may have expanded the hierarchy: children it
+            # added get the sub-schemas and defaults of their stores,
+            # and the views are built from what is there now.
+            self.state._apply_subschemas()
+            self.state.apply_defaults()
+            self.state.build_topology_views()
 
         # settings for self._emit_configuration()
         self.emit_topology = emit_topology
